@@ -410,11 +410,11 @@ def _rel_theta_and_center(case, rng, kind, params, theta_mine, labels, ap, data,
             for k in ap._params if k != 'positions'}
     if 'theta' in held:
         held['theta'] = float(params['theta'])
-    if labels and 'np.float32' in labels.values():
-        # numpy float32 scalars make the library compute the box extents in float32 (NEP 50 promotion): a box
-        # grazing the frame can differ from the float64 twin. The documentation only says `float`: counted, not judged
-        case.note('float32_scalar_form_not_judged_against_float64_twin')
-    elif labels:
+    if labels:
+        # (numpy float32 scalars included: before /repo 3ebbc82 a float32 theta made the library compute the box
+        # extents in float32 - a box grazing the frame differed from the float64 twin; repaired there, judged here)
+        if 'np.float32' in labels.values():
+            case.note('float32_scalar_form_judged_against_float64_twin')
         ref = G.build_pixel(kind, np.array(ap.positions, float), held)
         s_r, e_r = ref.do_photometry(_cp(data), error=_cp(error), mask=_cp(mask), **kw)
         case.close(_vals(s2), _vals(s_r), 'given_form_equals_float_radian_aperture', mech=mech)
